@@ -56,6 +56,10 @@ def in_scope(prop, b):
             return bool(d & (ALLOBS | {"keyRestored", "failed"}))
         if ev in ("Query", "Ending"):
             return bool(d & (ALLOBS | {"keyStable"}))
+        if ev == "Uncount":
+            # "repetition bookkeeping" is restored when a registered move is taken back: unregistering is the
+            # first half of that take-back in every caller (search, game)
+            return bool(d & {"failed", "result", "seen"})
         if ev == "CloneUndo":
             # the boards the search and the position counter work on are copies: undo must restore on them too
             return bool(d & (ALLOBS | {"failed"}))
@@ -240,7 +244,7 @@ def c12(ctx):
     mc_engine(ctx, 2 if quick else 3, 1, MC_SEEDS_QUICK if quick else MC_SEEDS_THOROUGH)
     bad, ev, hist, sk = run_traces(ctx, "walk", 12, 4 if quick else 15, 160 if quick else 300, with_sum=True)
     absorb_bad(ctx, bad)
-    bad2, ev2, h2, sk2 = run_traces(ctx, "clock", 4 if quick else 12, 2 if quick else 10, 250, with_sum=True)
+    bad2, ev2, h2, sk2 = run_traces(ctx, "clock", 8 if quick else 12, 3 if quick else 10, 250, with_sum=True)
     absorb_bad(ctx, bad2)
     # B1: the board after EVERY legal move of every oracle state (1-ply neighbourhood of the catalogue, both colours)
     bo = ctx.path("boards_after_moves.ndjson")
